@@ -6,6 +6,7 @@ import (
 	"go/token"
 	"go/types"
 	"math/big"
+	"os"
 	"path/filepath"
 	"strings"
 
@@ -97,11 +98,28 @@ const tokenEQL = token.EQL
 
 type pathEnd struct{ reason string }
 
+// decision is one resolved branch on a path; fork records that both sides were feasible when it was first met.
+type decision struct{ take, fork bool }
+
+// static sharding of the path tree: the first shardBits two-sided forks are decided by the bits of shardID
+var shardBits, shardID int
+
+// ownsShortPath: a path with fewer than shardBits forks is reached by several shards; exactly one reports it.
+func (e *Engine) ownsPath() bool {
+	for j := e.forkCount; j < shardBits; j++ {
+		if (shardID>>j)&1 == 0 {
+			return false
+		}
+	}
+	return true
+}
+
 type Engine struct {
 	S            *Solver
-	prefix       []bool
-	decisions    []bool
-	pending      [][]bool
+	prefix       []decision
+	decisions    []decision
+	pending      [][]decision
+	forkCount    int // two-sided forks seen so far on this path (static sharding of the path tree)
 	fresh        int
 	decls        []string
 	Paths        int
@@ -131,15 +149,17 @@ type Engine struct {
 	nOblig, nDischarged          int
 	inconclusive                 []string
 	sleepDur                     map[int]string // clock reading index -> vf.Sleep duration preceding it
+	curFn                        string
 	marshalMemo                  map[string]string
 	dhPairs                      [][2]string
 	macKeys                      []string
 }
 
 // resetPath prepares the engine for one deterministic re-execution along the decision prefix.
-func (e *Engine) resetPath(prefix []bool) {
+func (e *Engine) resetPath(prefix []decision) {
 	e.S = NewSolver()
 	e.prefix, e.decisions, e.pending, e.fresh, e.clockN, e.occ, e.Inputs = prefix, nil, nil, 0, 0, nil, nil
+	e.forkCount = 0
 	globals = map[*ssa.Global]Ptr{}
 	allocEpoch, epochCtr, frozenAt = map[*any]int{}, 0, -1
 	msgOf, tsOf = map[string]*msgProv{}, map[*any]TimeV{}
@@ -314,17 +334,29 @@ func (e *Engine) branch(c any) bool {
 	}
 	ce := boolE(c)
 	k := len(e.decisions)
-	var take bool
+	var take, fork bool
 	if k < len(e.prefix) {
-		take = e.prefix[k]
+		take, fork = e.prefix[k].take, e.prefix[k].fork
 	} else {
 		t := e.S.CheckWith(ce) != "unsat"
 		f := e.S.CheckWith("(not "+ce+")") != "unsat"
 		switch {
 		case t && f:
-			alt := append(append([]bool{}, e.decisions...), false)
-			e.pending = append(e.pending, alt)
-			take = true
+			fork = true
+			if e.forkCount < shardBits {
+				take = (shardID>>e.forkCount)&1 == 1 // the other side belongs to another shard
+			} else {
+				alt := append(append([]decision{}, e.decisions...), decision{false, true})
+				e.pending = append(e.pending, alt)
+				take = true
+			}
+			if traceForks {
+				c := ce
+				if len(c) > 160 {
+					c = c[:160] + "..."
+				}
+				fmt.Fprintf(os.Stderr, "FORK depth=%d in %s: %s\n", k, e.curFn, c)
+			}
 		case t:
 			take = true
 		case f:
@@ -333,7 +365,10 @@ func (e *Engine) branch(c any) bool {
 			panic(pathEnd{"infeasible"})
 		}
 	}
-	e.decisions = append(e.decisions, take)
+	if fork {
+		e.forkCount++
+	}
+	e.decisions = append(e.decisions, decision{take, fork})
 	if r := robustOf(ce, take); r != "" {
 		e.robust = append(e.robust, r)
 	}
@@ -405,6 +440,8 @@ func (e *Engine) modelSummary() string {
 	e.lastCex = c
 	return strings.Join(parts, " ")
 }
+
+var traceForks = os.Getenv("GOSYM_TRACE") != ""
 
 func relPath(p string) string {
 	if strings.HasPrefix(p, repoDir+"/") {
@@ -641,6 +678,9 @@ func (e *Engine) call(fn *ssa.Function, args []any, bind []any) any {
 		pos := fn.Prog.Fset.Position(fn.Pos())
 		e.funcs[fmt.Sprintf("%s (%s:%d)", fn.String(), relPath(pos.Filename), pos.Line)] = true
 	}
+	saved := e.curFn
+	e.curFn = fn.Name()
+	defer func() { e.curFn = saved }()
 	f := &frame{fn: fn, env: map[ssa.Value]any{}}
 	for i, p := range fn.Params {
 		f.env[p] = args[i]
